@@ -35,12 +35,17 @@ NONASCII = list("éßİıǅΑяאあ漢«»¡¿§¶·‐–—‘’“”…‰
 CONTROLS = [chr(c) for c in list(range(1, 9)) + [0x0B, 0x0C] + list(range(0x0E, 0x20)) + [0x7F] + list(range(0x80, 0xA0))]
 
 NAMED: dict[str, str] = {}
+NAMED_LONG: dict[str, str] = {}
 for _name, _val in html.entities.html5.items():
     if _name.endswith(";") and len(_val) == 1:
         nm = _name[:-1]
         if nm.isalnum() and nm.isascii() and 2 <= len(nm) <= 32 and nm[0].isalpha():
             if _val not in NAMED or len(nm) < len(NAMED[_val]):
                 NAMED[_val] = nm
+            if _val not in NAMED_LONG or len(nm) > len(NAMED_LONG[_val]):
+                NAMED_LONG[_val] = nm
+# characters whose longest HTML5 name is very long (boundary of every length limit in the entity scanner)
+LONG_NAME_CHARS = [c for c, n in sorted(NAMED_LONG.items(), key=lambda kv: -len(kv[1]))[:40]]
 
 
 def valid_entity_code(c: int) -> bool:
@@ -74,8 +79,10 @@ def _case(draw):
             chars.append(d.pick(ALNUM))
         elif k < 70:
             chars.append(d.pick([" ", "\t", "  "]))
-        elif k < 90:
+        elif k < 87:
             chars.append(d.pick(NONASCII))
+        elif k < 90:
+            chars.append(d.pick(LONG_NAME_CHARS))
         elif k < 95:
             chars.append(d.unichar())
         elif form == "backslash":
@@ -88,7 +95,7 @@ def _case(draw):
         t = t.strip()
     if not t:
         t = d.pick(ASCII_PUNCT)
-    spell = [d.i(0, 5) for _ in range(len(t))]
+    spell = [d.i(0, 6) for _ in range(len(t))]
     edge = [d.pick(["", "", " ", "\t", "  ", " "]), d.pick(["", "", " ", "\t", " "])]
     return {"t": t, "form": form, "spell": spell, "edge": edge}
 
@@ -119,6 +126,8 @@ def spell_text(t: str, form: str, spell: list) -> str:
             out.append("&#X%X;" % c)
         elif k == 4 and ch in NAMED:
             out.append("&" + NAMED[ch] + ";")
+        elif k == 6 and ch in NAMED_LONG:
+            out.append("&" + NAMED_LONG[ch] + ";")
         elif k == 5 and c < 0x10000:
             out.append("&#x%06X;" % c if c > 0xFFFF else "&#%07d;" % c)
         else:
